@@ -52,21 +52,21 @@ def out (p : State × Resp) : State × String := (p.1, p.2.line)
 
 def step (s : State) (line : String) : State × String :=
   match (line.trimAscii.toString.splitOn " ").filter (· ≠ "") with
-  | "UPOST" :: r :: rest => out (Upd.step s (.uPost r (mkQ' rest)))
-  | "UPATCH" :: r :: sid :: rest => out (Upd.step s (.uPatch r (pubOf sid) (mkQ' rest)))
-  | "UPUT" :: r :: sid :: rest => out (Upd.step s (.uPut r (pubOf sid) (mkQ' rest)))
-  | ["UGET", r, sid] => out (Upd.step s (.uGet r (pubOf sid)))
-  | ["UDEL", r, sid] => out (Upd.step s (.uDel r (pubOf sid)))
-  | "BGET" :: r :: a :: rest => out (Upd.step s (.bGet r a false (kv rest "range")))
-  | "BHEAD" :: r :: a :: rest => out (Upd.step s (.bGet r a true (kv rest "range")))
-  | ["BDEL", r, a] => out (Upd.step s (.bDel r a))
+  | "UPOST" :: r :: rest => out (Upd.stepAged s (.uPost r (mkQ' rest)))
+  | "UPATCH" :: r :: sid :: rest => out (Upd.stepAged s (.uPatch r (pubOf sid) (mkQ' rest)))
+  | "UPUT" :: r :: sid :: rest => out (Upd.stepAged s (.uPut r (pubOf sid) (mkQ' rest)))
+  | ["UGET", r, sid] => out (Upd.stepAged s (.uGet r (pubOf sid)))
+  | ["UDEL", r, sid] => out (Upd.stepAged s (.uDel r (pubOf sid)))
+  | "BGET" :: r :: a :: rest => out (Upd.stepAged s (.bGet r a false (kv rest "range")))
+  | "BHEAD" :: r :: a :: rest => out (Upd.stepAged s (.bGet r a true (kv rest "range")))
+  | ["BDEL", r, a] => out (Upd.stepAged s (.bDel r a))
   | "DEF" :: name :: kind :: rest => ({ s with defs := s.defs ++ [(name, mkBody kind rest)] }, "def")
-  | "MPUT" :: r :: ref :: rest => out (Upd.step s (.mPut r ref (kv rest "ct") (kv rest "qd") (kv rest "body") (kv rest "len" ≠ "unknown")))
-  | "MGET" :: r :: ref :: rest => out (Upd.step s (.mGet r ref (csv (kv rest "accept")) false (kv rest "range")))
-  | "MHEAD" :: r :: ref :: rest => out (Upd.step s (.mGet r ref (csv (kv rest "accept")) true (kv rest "range")))
-  | ["MDEL", r, ref] => out (Upd.step s (.mDel r ref))
-  | "TAGS" :: r :: rest => out (Upd.step s (.tags r (kv rest "n") (kv rest "last")))
-  | "REFS" :: r :: arg :: rest => out (Upd.step s (.refs r arg (kv rest "at") (kv rest "cache") (kv rest "page")))
+  | "MPUT" :: r :: ref :: rest => out (Upd.stepAged s (.mPut r ref (kv rest "ct") (kv rest "qd") (kv rest "body") (kv rest "len" ≠ "unknown")))
+  | "MGET" :: r :: ref :: rest => out (Upd.stepAged s (.mGet r ref (csv (kv rest "accept")) false (kv rest "range")))
+  | "MHEAD" :: r :: ref :: rest => out (Upd.stepAged s (.mGet r ref (csv (kv rest "accept")) true (kv rest "range")))
+  | ["MDEL", r, ref] => out (Upd.stepAged s (.mDel r ref))
+  | "TAGS" :: r :: rest => out (Upd.stepAged s (.tags r (kv rest "n") (kv rest "last")))
+  | "REFS" :: r :: arg :: rest => out (Upd.stepAged s (.refs r arg (kv rest "at") (kv rest "cache") (kv rest "page")))
   | ["RAW", m, path] => let (s', o) := Upd.stepRaw s m (unescape path); (s', s!"{o.status} code={o.code}")
   | ["RAW", m] => let (s', o) := Upd.stepRaw s m ""; (s', s!"{o.status} code={o.code}")
   | ["GC", r] => (gcRepo s r, "gc-ok")
